@@ -68,6 +68,8 @@ TypePriceOf(s, tx) ==
      [] tx.type = "LockStake" -> PT(s).LockStake
      [] tx.type = "SetCandidateOn" -> PT(s).SetCandidateOn
      [] tx.type = "SetCandidateOff" -> PT(s).SetCandidateOff
+     [] tx.type = "SetHaltBlock" -> PT(s).SetHaltBlock
+     [] tx.type = "VoteUpdate" -> PT(s).VoteUpdate
      [] OTHER -> Zero
 PriceFor(s, tx) == tx.gasPrice ** (TypePriceOf(s, tx) ++ (Nat2A(tx.bytes) ** PT(s).PayloadByte))
 FailPriceFor(s, tx) == tx.gasPrice ** (PT(s).FailedTx ++ (Nat2A(tx.bytes) ** PT(s).PayloadByte))
